@@ -11,7 +11,7 @@ falsify the loop condition.
 import ast
 
 INF = 10 ** 6
-INLINE = {"_invoke", "_call", "_deref"}
+INLINE = set()      # (helpers are inlined by what they do, not by name: see Exec.call)
 
 
 def module_string_sets(tree):
@@ -77,6 +77,7 @@ def same(a, b):
 class Exec:
     def __init__(self, funcs, summary, consts=None):
         self.consts = consts or {}
+        self.inlining = []
         self.unknown = []
         self.viol = []
         self.loops_seen = set()
@@ -208,7 +209,20 @@ class Exec:
                 return
             yield st; return
         if isinstance(f, ast.Name) and f.id in self.funcs and any(isinstance(x, ast.Name) and x.id == "lexer" for x in c.args):
-            if f.id in INLINE:
+            # small helpers that may consume nothing (they start with their own look-ahead test) are analysed
+            # under the caller's look-ahead facts instead of through their summary
+            inline = f.id in INLINE or (self.summary.get(f.id, INF) == 0 and f.id not in self.inlining
+                                        and len(self.inlining) < 2 and not f.id.startswith("parse_"))
+            if inline:
+                self.inlining.append(f.id)
+                try:
+                    outs_ = self.run_function(self.funcs[f.id], S(0, st.known, st.excl))
+                finally:
+                    self.inlining.pop()
+                for s in outs_:
+                    yield S(st.c + s.c, s.known if s.c == 0 else None, s.excl if s.c == 0 else frozenset())
+                return
+            if False:
                 for s in self.run_function(self.funcs[f.id], S(0, st.known, st.excl)):
                     yield S(st.c + s.c, s.known if s.c == 0 else None, s.excl if s.c == 0 else frozenset())
                 return
